@@ -217,7 +217,7 @@ func (rs *runState) checkPattern(source, pattern string, inputs []string, noCapt
 			}
 			rs.outcome(off)
 			if on != off {
-				sig := classify(rs.multiline, pattern, in, on, off)
+				sig := classify(rs.multiline, pattern, in, on, off, func(s string) (result, result) { return eval(p.on, tx, s), eval(p.off, tx, s) })
 				c.Violation(sig, describe(c.Variant, pattern, in, on, off, "operator"),
 					scenario{Level: "operator", Variant: c.Variant, Pattern: pattern, Input: []byte(in), InputQ: fmt.Sprintf("%q", in), Capture: true, Source: source})
 			}
@@ -231,7 +231,7 @@ func (rs *runState) checkPattern(source, pattern string, inputs []string, noCapt
 				on := eval(p.on, tx, in)
 				nocap++
 				if on != off {
-					sig := classify(rs.multiline, pattern, in, on, off)
+					sig := classify(rs.multiline, pattern, in, on, off, func(s string) (result, result) { return eval(p.on, tx, s), eval(p.off, tx, s) })
 					c.Violation(sig, describe(c.Variant, pattern, in, on, off, "operator (no capture)"),
 						scenario{Level: "operator", Variant: c.Variant, Pattern: pattern, Input: []byte(in), InputQ: fmt.Sprintf("%q", in), Capture: false, Source: source})
 				}
